@@ -17,6 +17,31 @@ FAMILIES = ["Bernoulli", "Categorical", "DiscreteUniform", "Normal", "Uniform", 
 DISCRETE_FAMILIES = ["Bernoulli", "Categorical", "DiscreteUniform"]
 
 
+def compound_probability(items, rng):
+    """writes one probability that is not the last one as a sum or difference ({1/8 + 1/8}, {3/8 - 1/8}) and leaves the last
+    one implicit: the implicit probability has to subtract the *whole* expression"""
+    cands = [i for i, it in enumerate(items[:-1]) if isinstance(it[1], str)]
+    if not cands:
+        return False
+    i = rng.choice(cands)
+    try:
+        pr = Fraction(items[i][1])
+    except ValueError:
+        # a symbolic probability p: {p/2 + p/2}
+        half = ["mul", num(Fraction(1, 2)), var(items[i][1])]
+        items[i][1] = ["add", half, half]
+        items[-1][1] = None
+        return True
+    if rng.random() < 0.6:
+        a = pr / 2 if rng.random() < 0.5 else pr / 4
+        items[i][1] = ["add", num(a), num(pr - a)]
+    else:
+        c = Fraction(1, rng.choice([8, 16, 10]))
+        items[i][1] = ["sub", num(pr + c), num(c)]
+    items[-1][1] = None
+    return True
+
+
 def rand_probs(rng, k):
     """k positive Fractions adding up to 1"""
     denom = rng.choice([2, 3, 4, 5, 6, 8, 10, 12])
@@ -166,6 +191,8 @@ class C12Gen:
             items.append([e, fstr(probs[i])])
         if rng.random() < 0.5:
             items[-1][1] = None
+        if rng.random() < 0.12:
+            compound_probability(items, rng)
         return ["choice", items]
 
     def func(self):
@@ -840,3 +867,31 @@ def late_init_c05(rng):
         init.append(["assign", "z", num(0)])
     guard = ["true"] if rng.random() < 0.7 else ["cmp", var("f"), "==", num(rng.choice([0, 1]))]
     return {"types": [], "init": init, "guard": guard, "body": body, "uninitialised": [v]}
+
+
+def double_init_constant_c05(rng):
+    """a variable that the loop body only reads (a constant of the loop) but that the initial part assigns twice: the
+    value the body sees is the one of the last initial assignment"""
+    c = rng.choice(["c", "k", "s"])
+    first = num(rng.choice([3, 5, -2, 7]))
+    second = rng.choice([["draw", "Bernoulli", [num(Fraction(1, 2))]],
+                         ["draw", "DiscreteUniform", [num(0), num(2)]],
+                         num(rng.choice([0, 1, 4])),
+                         ["add", var(c), num(1)],
+                         ["choice", [[num(1), "1/2"], [num(2), None]]]])
+    pair = [["assign", c, first], ["assign", c, second]]
+    if rng.random() < 0.4:
+        pair.reverse()
+        if pair[0][2][0] == "add":
+            pair[0][2] = num(6)
+    init = pair + [["assign", "x", num(0)], ["assign", "f", num(rng.choice([0, 1]))]]
+    use = rng.choice([["assign", "x", var(c)],
+                      ["if", [[["cmp", var("f"), "==", num(1)], [["assign", "x", var(c)]]]], None],
+                      ["assign", "x", ["mul", var(c), var("f")]],
+                      ["assign", "x", ["sub", var(c), var("f")]]])
+    body = [["assign", "f", ["draw", "Bernoulli", [num(Fraction(1, 2))]]], use]
+    if rng.random() < 0.5:
+        body.reverse()
+    guard = ["true"] if rng.random() < 0.7 else ["cmp", var("f"), "==", num(rng.choice([0, 1]))]
+    return {"types": [], "init": init, "guard": guard, "body": body, "uninitialised": []}
+
